@@ -56,6 +56,40 @@ func (c *c05LiveChain) SubmitDKGResult(idx beaconchain.GroupMemberIndex, r *beac
 type c05MemberChain struct {
 	*c05LiveChain
 	own *beaconchain.DKGResult
+
+	// revertFor != 0: this member's own submission fails late - while its
+	// transaction is under way the same result, submitted by member
+	// revertFor, is accepted and announced; then the member's transaction
+	// reverts (the event comes before the error)
+	revertFor beaconchain.GroupMemberIndex
+
+	// slowQuery: this member's chain client is slow - its "is the group
+	// registered" query is answered only after another member's result was
+	// accepted (schedule shaping only; bounded, never a verdict)
+	slowQuery bool
+}
+
+func (c *c05MemberChain) IsGroupRegistered(groupPublicKey []byte) (bool, error) {
+	if c.slowQuery {
+		verifkit.Eventually(time.Second, func() bool {
+			c.mu.Lock()
+			defer c.mu.Unlock()
+			return c.accepted != nil
+		})
+	}
+	return c.c05LiveChain.IsGroupRegistered(groupPublicKey)
+}
+
+func (c *c05MemberChain) SubmitDKGResult(idx beaconchain.GroupMemberIndex, r *beaconchain.DKGResult, sigs map[beaconchain.GroupMemberIndex][]byte) error {
+	if c.revertFor == 0 {
+		return c.c05LiveChain.SubmitDKGResult(idx, r, sigs)
+	}
+	other := c.revertFor
+	c.revertFor = 0
+	if err := c.c05LiveChain.SubmitDKGResult(other, r, sigs); err != nil {
+		return err
+	}
+	return fmt.Errorf("c05: transaction reverted, the result was submitted by member %d in the meantime", other)
 }
 
 func (c *c05MemberChain) CalculateDKGResultHash(r *beaconchain.DKGResult) (beaconchain.DKGResultHash, error) {
@@ -104,11 +138,15 @@ func TestVerif_C05_ExecuteDKG(t *testing.T) {
 		if lostSender >= victim {
 			lostSender++
 		}
-		scenario := rapid.SampledFrom([]string{"lost-last-message", "lost-last-message", "lost-last-message", "all-agree"}).Draw(t, "scenario")
+		scenario := rapid.SampledFrom([]string{"lost-last-message", "late-revert", "lost-last-message", "late-revert", "all-agree"}).Draw(t, "scenario")
+		// late-revert: everybody agrees; the first submitter's transaction
+		// reverts after another member's identical result was accepted
+		competitor := beaconchain.GroupMemberIndex(rapid.IntRange(2, n).Draw(t, "competitor"))
 		seed := big.NewInt(int64(rapid.IntRange(1, 1<<40).Draw(t, "seed")))
 		start := uint64(rapid.IntRange(2, 50).Draw(t, "start"))
 		selected := c05GenSelected(t, n)
-		desc := fmt.Sprintf("N=%d honest=%d scenario=%s victim=%d lost-sender=%d selected=%v", n, honest, scenario, victim, lostSender, selected)
+		slowVictim := rapid.Bool().Draw(t, "victimChainClientSlow")
+		desc := fmt.Sprintf("N=%d honest=%d scenario=%s victim=%d lost-sender=%d competitor=%d selected=%v", n, honest, scenario, victim, lostSender, competitor, selected)
 
 		operatorPrivateKey, operatorPublicKey, err := operator.GenerateKeyPair(local_v1.DefaultCurve)
 		if err != nil {
@@ -148,6 +186,10 @@ func TestVerif_C05_ExecuteDKG(t *testing.T) {
 				}}
 			}
 			view := &c05MemberChain{c05LiveChain: live}
+			view.slowQuery = scenario == "lost-last-message" && idx == victim && slowVictim
+			if scenario == "late-revert" && i == 1 {
+				view.revertFor = competitor
+			}
 			views[i] = view
 			go func() {
 				s, err := ExecuteDKG(&testutils.MockLogger{}, seed, idx, start, view, channel, validator, append([]chain.Address{}, selected...))
@@ -243,6 +285,9 @@ func TestVerif_C05_ExecuteDKG(t *testing.T) {
 			if len(differing) > 0 {
 				viaFate = true
 			}
+		}
+		if scenario == "late-revert" && outs[1].signer != nil {
+			viaFate = true
 		}
 		st.Case(viaFate, full, "scenario:"+scenario, fmt.Sprintf("accepted:%v", accepted != nil), fmt.Sprintf("stayed:%d/%d", stayed, n), fmt.Sprintf("stayed-with-differing-own-view:%v", viaFate))
 	})
